@@ -300,6 +300,9 @@ def part_h(chk, thorough):
              # ... `move` between the heads, and the `&mut` chain with a `*` in each link (fifth reading, of 193dce3 / 925a5af)
              ("Display", '#[display("{}", { let _f = %s 1u8; 0 })] pub struct S;' % "".join("move |a%d: u8| " % i for i in range(700))),
              ("Display", '#[display("{}", %s 1u8)] pub struct S;' % ("*&mut " * 1500)),
+             # ... labelled breaks and shift-assignments (sixth reading, of cf39250)
+             ("Display", '#[display("{}", \'a: loop { %s 1u32 })] pub struct S;' % ("break \'a " * 1000)),
+             ("Display", '#[display("{}", { let mut x = 1u32; %s 1; x })] pub struct S;' % ("x <<= " * 1500)),
              # ... and so do types: `fn() -> fn() -> ..`, `&'static &'static ..` (third reading, of 60f08cd)
              ("Display", '#[display("{}", { let _f: Option<%s u8> = None; 0 })] pub struct S;' % ("fn() -> " * 1000)),
              ("Display", '#[display("{}", { let _f: Option<%s u8> = None; 0 })] pub struct S;' % ("&\'static " * 1000))]
@@ -320,7 +323,7 @@ def part_h(chk, thorough):
             chk.outcome("deep-nesting-compiles")
         else:
             chk.outcome("deep-nesting-diagnosed")
-    chk.part("h_deep_nesting", programs=len(progs), shapes=["1000 nested parentheses", "3000 prefix `!`", "2000 prefix `&`", "600 nested brackets", "700 nested closures", "1500 chained assignments", "1000 `return`", "1000 `&mut`", "1000 `else if`", "1000 `break`", "700 nested `move` closures", "1500 `*&mut`", "700 nested closures with two typed parameters", "1000 chained assignments with a `;` / a `,` inside each target", "1000 `fn() ->` in a type", "1000 `&'static` in a type"], oracle="one rustc process per program: it must end by itself (ok or diagnostics), not by a signal")
+    chk.part("h_deep_nesting", programs=len(progs), shapes=["1000 nested parentheses", "3000 prefix `!`", "2000 prefix `&`", "600 nested brackets", "700 nested closures", "1500 chained assignments", "1000 `return`", "1000 `&mut`", "1000 `else if`", "1000 `break`", "1000 `break 'a`", "1500 `<<=`", "700 nested `move` closures", "1500 `*&mut`", "700 nested closures with two typed parameters", "1000 chained assignments with a `;` / a `,` inside each target", "1000 `fn() ->` in a type", "1000 `&'static` in a type"], oracle="one rustc process per program: it must end by itself (ok or diagnostics), not by a signal")
 
 
 def part_g(chk, thorough):
